@@ -409,6 +409,45 @@ fn replay(a: &HashMap<String, String>) -> i32 {
     for v in &vectors {
         n += 1;
         let ev = v["ev"].as_str().unwrap_or("filter");
+        if ev == "scan" {
+            // a quoted regex literal against the raw literal of the pattern the scanner model extracts from it
+            let body: Vec<u8> = serde_json::from_value(v["body"].clone()).unwrap_or_default();
+            let pat: Vec<u8> = serde_json::from_value(v["pat"].clone()).unwrap_or_default();
+            let body_s = String::from_utf8_lossy(&body).to_string();
+            let pat_s = String::from_utf8_lossy(&pat).to_string();
+            let scheme = &w.schemes[v["sch"].as_u64().unwrap_or(1) as usize - 1];
+            let quoted = std::panic::catch_unwind(std::panic::AssertUnwindSafe(|| scheme.parse(&format!("s matches \"{body_s}")).ok().map(|a| serde_json::to_value(&a).unwrap())));
+            let hashes = "#".repeat(8);
+            let raw = std::panic::catch_unwind(std::panic::AssertUnwindSafe(|| scheme.parse(&format!("s matches r{hashes}\"{pat_s}\"{hashes}")).ok().map(|a| serde_json::to_value(&a).unwrap())));
+            let mut diffs: Vec<String> = Vec::new();
+            match (&quoted, &raw) {
+                (Err(_), _) | (_, Err(_)) => diffs.push("the parser panicked".into()),
+                (Ok(q), Ok(r)) => {
+                    if v["exp"] == "reject" {
+                        if q.is_some() {
+                            diffs.push(format!("the literal \"{body_s} was accepted: {}", q.as_ref().unwrap()["rhs"]));
+                        }
+                    } else {
+                        if q.is_some() != r.is_some() {
+                            diffs.push(format!("quoted literal accepted = {}, raw literal of the scanned pattern {:?} accepted = {}", q.is_some(), pat_s, r.is_some()));
+                        } else if let (Some(qa), Some(ra)) = (q, r) {
+                            if qa["rhs"] != ra["rhs"] || qa["rhs"] != serde_json::Value::String(pat_s.clone()) {
+                                diffs.push(format!("pattern reaching the engine: quoted {} raw {} model {:?}", qa["rhs"], ra["rhs"], pat_s));
+                            }
+                            accepted += 1;
+                        }
+                    }
+                }
+            }
+            runs += 2;
+            if !diffs.is_empty() {
+                bad += 1;
+                let rec = json!({"vector": v, "src": format!("s matches \"{body_s}"), "observed": json!(null), "diffs": diffs});
+                serde_json::to_writer(&mut ow, &rec).unwrap();
+                ow.write_all(b"\n").unwrap();
+            }
+            continue;
+        }
         let mut ts: Vec<Tok> = if v.get("ts").is_some() { serde_json::from_value(v["ts"].clone()).expect("tokens") } else { vec![] };
         fill_txt(&mut ts);
         // a text vector of the character-level model: code points instead of tokens
